@@ -1464,3 +1464,43 @@ def r08k(ctx, rep, rule="R08k"):
             "gets an inexact answer where the same integer as a fixnum gets the exact one" % (name, ", ".join(sorted({b[0] for b in bad}))),
             [b[1] for b in bad] or [fn.span])
     rep.floor(rule, "Rational arms of the unary operations", n, 6)
+
+
+def r08m(ctx, rep, rule="R08m"):
+    """a bignum beyond the range of a double with a finite result"""
+    facts = ctx["facts"]
+    rep.rule(rule, "an inexact fallback approximates the result, not the operands (one-sided form of R08g): a bignum beyond 1.8e308 "
+             "converts to infinity, but its quotient by a fixnum or a rational, and its product with a rational, can be far inside "
+             "the range of a double — (/ (expt 10 310) 1000) is 1e307. In the arms BigInt / Fixnum and BigInt / Rational of "
+             "division and BigInt * Rational, Rational * BigInt of multiplication no float multiplication or division takes an "
+             "operand that is the to_f64 conversion of the bignum.")
+    n = 0
+    for name, pairs in (("div", [("BigInt", "Fixnum"), ("BigInt", "Rational")]), ("mul", [("BigInt", "Rational"), ("Rational", "BigInt")])):
+        fn = need(rep, rule, facts, BINOPS[name])
+        if fn is None:
+            continue
+        arms = number_arms(facts, fn)
+        for pr in pairs:
+            reg = arms.get(pr)
+            if reg is None:
+                continue
+            n += 1
+            bad = []
+            for op, aty, loc, bb, st in region_facts(fn, reg)["bins"]:
+                if op not in ("Div", "Mul") or aty != "f64":
+                    continue
+
+                def from_big(o):
+                    og = fn.origin(o)
+                    for _ in range(3):
+                        if og[0] == "call" and (callee(og[1]) or "").endswith(("::unwrap_or", "::unwrap", "::unwrap_or_default")):
+                            og = fn.origin(og[1]["args"][0])
+                    return og[0] == "call" and "BigInt" in (og[1].get("fnargs") or "") and (og[1].get("fnargs") or "").endswith("::to_f64")
+                if from_big(st["rv"]["a"]) or from_big(st["rv"]["b"]):
+                    bad.append(loc)
+            key = "%s|%s|%s,%s" % (rule, name, pr[0], pr[1])
+            (rep.ok if not bad else rep.fail)(
+                rule, key, "%s(%s, %s) does not compute with the converted bignum" % (name, pr[0], pr[1]) if not bad else
+                "%s(%s, %s) multiplies / divides the to_f64 conversion of the bignum operand: beyond 1.8e308 that is infinity, and so "
+                "is the answer, although the true result is a finite double" % (name, pr[0], pr[1]), bad or [fn.span])
+    rep.floor(rule, "bignum-with-small-operand arms of * and /", n, 4)
